@@ -181,6 +181,66 @@ theorem is_full_iff (n : Int) (hn : 0 < n) (s e : Int) (h : 0 ≤ s ∧ 0 ≤ e 
 /-- Open bounds count as full on that side. -/
 theorem is_full_open (n : Int) : sliceFull (.slc none none) n = true := rfl
 
+/-! ## N-D regions: axis by axis, whatever container the shape comes in -/
+
+/-- N-D normalisation has one entry per axis that both the region and the shape describe … -/
+theorem roi_normalise_nd_length (roi : List PIdx) (shape : List Int) :
+    (roiNormalise roi shape).length = min roi.length shape.length := by
+  simp [roiNormalise]
+
+/-- … and on every such axis the normalised slice selects the same elements as the original. -/
+theorem roi_normalise_nd_same_elements (roi : List PIdx) (shape : List Int) (k : Nat)
+    (hr : k < roi.length) (hs : k < shape.length) (a b : Option Int) (hk : roi[k] = .slc a b)
+    (hn : 0 ≤ shape[k]) (i : Int) :
+    Sel shape[k] ((roiNormalise roi shape)[k]'(by simp [roiNormalise]; omega)).toPIdx i ↔ Sel shape[k] roi[k] i := by
+  simp only [roiNormalise, List.getElem_map, List.getElem_zip, hk]
+  exact normalise_same_elements _ hn a b i
+
+/-- N-D fullness is fullness on every described axis. -/
+theorem roi_is_full_nd_iff (roi : List PIdx) (shape : List Int) :
+    roiIsFull roi shape = true ↔
+      ∀ k (hr : k < roi.length) (hs : k < shape.length), sliceFull roi[k] shape[k] = true := by
+  simp only [roiIsFull, List.all_eq_true]
+  constructor
+  · intro h k hr hs
+    exact h (roi[k], shape[k]) (by
+      rw [List.mem_iff_getElem]
+      exact ⟨k, by simp; omega, by simp⟩)
+  · intro h p hp
+    obtain ⟨k, hk, rfl⟩ := List.mem_iff_getElem.mp hp
+    simp only [List.length_zip] at hk
+    simpa using h k (by omega) (by omega)
+
+/-- Index-set meaning of N-D fullness (closed in-range bounds, no empty axis, one slice per axis):
+`roi_is_full` ⇔ on every axis every element is selected, i.e. `X[roi]` is all of `X`. -/
+theorem roi_is_full_nd_selects_all (roi : List (Int × Int)) (shape : List Int) (_hlen : roi.length = shape.length)
+    (hshape : ∀ k (hs : k < shape.length), 0 < shape[k])
+    (hroi : ∀ k (hr : k < roi.length) (hs : k < shape.length),
+      0 ≤ (roi[k]).1 ∧ 0 ≤ (roi[k]).2 ∧ (roi[k]).2 ≤ shape[k]) :
+    roiIsFull (roi.map fun p => .slc (some p.1) (some p.2)) shape = true ↔
+      ∀ k (hr : k < roi.length) (hs : k < shape.length) (i : Int), 0 ≤ i ∧ i < shape[k] →
+        Sel shape[k] (.slc (some (roi[k]).1) (some (roi[k]).2)) i := by
+  rw [roi_is_full_nd_iff]
+  constructor
+  · intro h k hr hs
+    have := h k (by simpa using hr) hs
+    simp only [List.getElem_map] at this
+    exact (is_full_iff _ (hshape k hs) _ _ (hroi k hr hs)).mp this
+  · intro h k hr hs
+    have hr' : k < roi.length := by simpa using hr
+    simp only [List.getElem_map]
+    exact (is_full_iff _ (hshape k hs) _ _ (hroi k hr' hs)).mpr (h k hr' hs)
+
+/-- the hypotheses are satisfiable and the answer is not constant: a full and a cropped 2-D region -/
+example : roiIsFull [.slc (some 0) (some 3), .slc none none] [3, 4] = true
+    ∧ roiIsFull [.slc (some 0) (some 3), .slc (some 1) (some 4)] [3, 4] = false := by decide
+
+/-- N-D padding pads every described axis (`pad_spec` applies to each entry). -/
+theorem roi_pad_nd_axis (roi : List PIdx) (pad : Int) (shape : List Int) (k : Nat)
+    (hr : k < roi.length) (hs : k < shape.length) :
+    (roiPad roi pad shape)[k]'(by simp [roiPad]; omega) = padSlice roi[k] pad shape[k] := by
+  simp [roiPad]
+
 /-- `roi_center` is the mid-point of the described interval. -/
 theorem center_eq (s e : Int) (h : 0 ≤ s ∧ 0 ≤ e) :
     sliceCenter (.slc (some s) (some e)) = .ok (((s + e : Int) : Rat) / 2) := by
